@@ -76,6 +76,10 @@ func (c *CheckCtx) RunScenario(sc *Scenario, simIndex int) (*Outcome, error) {
 		k := v.Key()
 		if f, ok := c.found[k]; ok {
 			f.Count++
+			if simIndex < f.SimIndex {
+				// report the lowest simulation index: independent of worker timing
+				f.V, f.Scenario, f.SimIndex = v, sc, simIndex
+			}
 			continue
 		}
 		if c.found == nil {
